@@ -190,17 +190,146 @@ def run(ctx):
         ctx.check("C10.session", f, n, f.qual == "Interpreter.__init__",
                   "the session/base environment is replaced after construction")
     ii = model.method(P, "Interpreter", "interpret")
-    t = norm(ii.node)
-    ok = "if environment is None: env = self.environment" in t.replace("\n", " ") or \
-        ("env = self.environment" in t and "environment is None" in t)
-    ctx.check("C10.session", ii, None, ok, "interpret() without explicit environment does not use the session "
-              "environment", expr="default env", site="Interpreter.interpret: default env is self.environment")
-    ok = "parse_script(script, filename).evaluate(env)" in t
-    ctx.check("C10.session", ii, None, ok, "interpret() does not evaluate the parsed script in `env`",
+    from ..facts import must_facts, nodes_containing
+    g = CFG(ii.node, implicit_exc=False)
+    facts = must_facts(g)
+    hostp = ii.params[3] if len(ii.params) > 3 else "environment"
+
+    def is_eval(x):
+        return isinstance(x, ast.Call) and isinstance(x.func, ast.Attribute) and x.func.attr == "evaluate" \
+            and len(x.args) == 1
+    evals = nodes_containing(g, is_eval)
+    parsed = {norm(n.targets[0]) for n in ast.walk(ii.node) if isinstance(n, ast.Assign) and len(n.targets) == 1
+              and "parse_script(" in norm(n.value)}
+    evals = [(nd, c) for nd, c in evals if "parse_script(" in norm(c.func.value) or norm(c.func.value) in parsed]
+    ctx.check("C10.session", ii, None, len(evals) == 1 and isinstance(evals[0][1].args[0], ast.Name),
+              "interpret() does not evaluate the parsed script once, in an environment variable",
               expr="evaluate(env)", site="Interpreter.interpret: parse_script(..).evaluate(env)")
+    if len(evals) == 1 and isinstance(evals[0][1].args[0], ast.Name):
+        ev = evals[0][1].args[0].id
+
+        def none_fact(fs):
+            """True: host environment known absent, False: known present, None: unknown"""
+            for txt, pol in fs:
+                if txt in (f"{hostp} is None", f"{hostp} == None", f"not {hostp}"):
+                    return pol
+                if txt in (f"{hostp} is not None", f"{hostp} != None", hostp):
+                    return not pol
+            return None
+        sess, host, other = [], [], []
+        for nd in g.nodes:
+            a = nd.ast
+            if nd.kind == "stmt" and isinstance(a, ast.Assign) and len(a.targets) == 1 and norm(a.targets[0]) == ev:
+                k = none_fact(facts.get(nd.id, frozenset()))
+                v = norm(a.value)
+                if v == "self.environment" and k is True:
+                    sess.append(a)
+                elif v == hostp and k is False:
+                    host.append(a)
+                else:
+                    other.append(a)
+        if ev == hostp:
+            ok = bool(sess) and not other
+        else:
+            ok = bool(sess) and bool(host) and not other
+        ctx.check("C10.session", ii, other[0] if other else None, ok,
+                  "interpret() without explicit environment does not use the session environment (or with one, not "
+                  "the caller's)", expr="default env", site="Interpreter.interpret: default env is self.environment")
     for n in ast.walk(ii.node):
         if isinstance(n, ast.Call) and isinstance(n.func, ast.Attribute) and n.func.attr in ("newEnv",):
             ctx.check("C10.session", ii, n, False, "interpret() evaluates in a fresh child: definitions would be lost")
+
+    # a host environment handed to interpret() is attached below the session environment for the duration of the call
+    # only: never the interpreter's own base (a cycle: every lookup loops), and detached again on every way out
+    # (otherwise the next call finds the base as root and re-parents it, and a second interpreter given the same
+    # environment becomes the parent of this one's base)
+    def _restores(arg, aliases):
+        """the detach hands back no parent, or the parent saved before the attach"""
+        if isinstance(arg, ast.Constant) and arg.value is None:
+            return True
+        if not isinstance(arg, ast.Name):
+            return False
+        vals = [norm(n.value) for n in ast.walk(ii.node) if isinstance(n, ast.Assign) and len(n.targets) == 1
+                and norm(n.targets[0]) == arg.id]
+        return bool(vals) and all(v == "None" or v in {f"{a}.parent" for a in aliases} for v in vals) \
+            and any(v != "None" for v in vals)
+
+    def is_attach(x):
+        return isinstance(x, ast.Call) and isinstance(x.func, ast.Attribute) and x.func.attr == "withParent" \
+            and len(x.args) == 1 and norm(x.args[0]) in ("self.environment", "self.base_environment")
+    attaches = nodes_containing(g, is_attach)
+    if not attaches:
+        ctx.broken("Interpreter.interpret", "no `<root>.withParent(self.environment)` attach found")
+    finals = [st for t_ in ast.walk(ii.node) if isinstance(t_, ast.Try) for st in t_.finalbody]
+    for node, call in attaches:
+        recv = norm(call.func.value)
+        fs = facts.get(node.id, frozenset())
+        guarded = any(pol and txt.replace("(", "").replace(")", "") in
+                      (f"{recv} is not self.base_environment", f"self.base_environment is not {recv}",
+                       f"{recv} != self.base_environment")
+                      for txt, pol in fs) or \
+            any((not pol) and txt in (f"{recv} is self.base_environment", f"{recv} == self.base_environment")
+                for txt, pol in fs)
+        ctx.check("C10.session", ii, call, guarded,
+                  f"`{recv}` is attached below the session environment without excluding the interpreter's own base "
+                  f"environment: when the caller's environment already hangs below this interpreter (a second call "
+                  f"with it, or interpreter.environment.newEnv()) the base becomes its own ancestor and every name "
+                  f"lookup loops forever", expr="attach excludes own base",
+                  site="Interpreter.interpret: attach of the host environment excludes the own base")
+        # what is attached is the ROOT of the caller's chain (attaching an inner environment would cut it off from
+        # its own enclosing environments for the duration of the call)
+        params = set(ii.params)
+        rootok = None
+        if recv in params:
+            rootok = False
+        else:
+            assigns = [n for n in ast.walk(ii.node) if isinstance(n, ast.Assign) and len(n.targets) == 1
+                       and norm(n.targets[0]) == recv]
+            vals = [norm(n.value) for n in assigns]
+            walks = [w for w in ast.walk(ii.node) if isinstance(w, ast.While) and f"{recv}.parent" in norm(w.test)
+                     and any(isinstance(b, ast.Assign) and norm(b.targets[0]) == recv
+                             and norm(b.value) == f"{recv}.parent" for b in w.body)]
+            if assigns and all(v in params or v == f"{recv}.parent" or v.endswith(".getBase()") for v in vals) \
+                    and (walks or any(v.endswith(".getBase()") and v.split(".")[0] in params for v in vals)):
+                rootok = True
+        if rootok is None:
+            ctx.broken("Interpreter.interpret", f"cannot tell whether `{recv}` is the root of the host environment's chain")
+        ctx.check("C10.session", ii, call, rootok,
+                  f"`{recv}` is the caller's environment itself, not the root of its chain: the environments "
+                  f"enclosing it are cut off while the script runs", expr="attach at the chain root",
+                  site="Interpreter.interpret: the host environment is attached at the root of its chain")
+        # aliases of the attached root: `attached = <recv>` in the same block
+        aliases = {recv}
+        for n in ast.walk(ii.node):
+            if isinstance(n, ast.Assign) and norm(n.value) == recv and len(n.targets) == 1 \
+                    and isinstance(n.targets[0], ast.Name):
+                aliases.add(n.targets[0].id)
+        detached = False
+        for st in finals:
+            for x in ast.walk(st):
+                if isinstance(x, ast.Call) and isinstance(x.func, ast.Attribute) and x.func.attr == "withParent" \
+                        and len(x.args) == 1 and norm(x.func.value) in aliases and _restores(x.args[0], aliases):
+                    # the guards between the finally block and the detach may test the attached root only
+                    tests = []
+                    def find(body, acc):
+                        for b in body:
+                            if any(y is x for y in ast.walk(b)):
+                                if isinstance(b, ast.If):
+                                    inb = any(y is x for bb in b.body for y in ast.walk(bb))
+                                    find(b.body if inb else b.orelse, acc + [b.test])
+                                else:
+                                    tests.extend(acc)
+                                return
+                    find([st], [])
+                    names = {y.id for t_ in tests for y in ast.walk(t_) if isinstance(y, ast.Name)}
+                    if names <= aliases | {norm(x.args[0])} and not any(isinstance(y, ast.Call) for t_ in tests for y in ast.walk(t_)):
+                        detached = True
+        ctx.check("C10.session", ii, call, detached,
+                  f"the host environment attached here is not detached again (`.withParent(None)` on it in a finally "
+                  f"block, guarded by nothing but the attached root itself): the call leaves the caller's environment "
+                  f"re-parented, the next call with it re-parents the base, and another interpreter given it becomes "
+                  f"an ancestor of this one", expr="attach is undone in finally",
+                  site="Interpreter.interpret: the attached host environment is detached in finally")
 
     # ---------------------------------------------------------------- shared mutable state
     init = env.methods["__init__"]
@@ -292,3 +421,42 @@ def run(ctx):
                               f"module-level object `{nm}` is mutated at run time: state shared by all interpreters")
         for name in sorted(globs):
             ctx.ob("C10.globals", f"{m.rel}: module-level `{name}` is never mutated from a function", True)
+    # a default value is evaluated once, when the function is defined: a container there is one object for the whole
+    # process.  It may be read, but once it is stored in an object, returned or mutated it is state that survives the
+    # call and is shared by every interpreter.
+    def _mutable_default(d):
+        if isinstance(d, (ast.List, ast.Dict, ast.Set, ast.ListComp, ast.DictComp, ast.SetComp)):
+            return True
+        return isinstance(d, ast.Call) and not (isinstance(d.func, ast.Name) and d.func.id in
+                                                ("int", "float", "str", "bool", "tuple", "frozenset", "bytes"))
+    ndef = 0
+    for f in model.all_funcs():
+        a = f.node.args
+        pos = a.posonlyargs + a.args
+        pairs = list(zip(pos[len(pos) - len(a.defaults):], a.defaults)) + \
+            [(k, d) for k, d in zip(a.kwonlyargs, a.kw_defaults) if d is not None]
+        for prm, d in pairs:
+            ndef += 1
+            if not _mutable_default(d):
+                continue
+            leaks = None
+            for n in ast.walk(f.node):
+                if isinstance(n, ast.Assign) and any(isinstance(v, ast.Name) and v.id == prm.arg
+                                                     for v in ast.walk(n.value)) \
+                        and any(isinstance(t_, (ast.Attribute, ast.Subscript)) for t_ in n.targets):
+                    leaks = (n, "stored in an object")
+                elif isinstance(n, ast.Return) and n.value is not None and \
+                        any(isinstance(v, ast.Name) and v.id == prm.arg for v in ast.walk(n.value)):
+                    leaks = (n, "returned")
+                elif isinstance(n, ast.Call) and isinstance(n.func, ast.Attribute) and n.func.attr in MUT \
+                        and isinstance(n.func.value, ast.Name) and n.func.value.id == prm.arg:
+                    leaks = (n, "mutated")
+                elif isinstance(n, ast.Call) and any(isinstance(v, ast.Name) and v.id == prm.arg for v in n.args):
+                    leaks = leaks or (n, "handed on")
+                if leaks and leaks[1] != "handed on":
+                    break
+            ctx.check("C10.globals", f, leaks[0] if leaks else f.node, leaks is None,
+                      f"parameter `{prm.arg}` has a container as default value (one object for the whole process) and "
+                      f"it is {leaks[1] if leaks else ''}: state that survives the call and is shared by every "
+                      f"interpreter", expr=f"default {prm.arg}={norm(d)[:30]}")
+    ctx.ob("C10.globals", f"{ndef} parameter defaults inspected: none is a container that outlives the call", True)
